@@ -432,6 +432,16 @@ pub fn entries() -> Vec<Entry> {
 		("LockGuard<[MutexRef; 2]>", "LockGuard<[MRef; 2]>", "[MRef; 2]"),
 		("PoisonGuard<MutexRef>", "PoisonGuard<'static, MRef>", "PoisonRef<'static, MRef>"),
 		("LockGuard<PoisonResult<PoisonRef<MutexRef>>>", "LockGuard<PoisonResult<PoisonRef<'static, MRef>>>", "PoisonResult<PoisonRef<'static, MRef>>"),
+		// every other public type that carries a ThreadKey: the error values that hand the key or the guard back
+		("PoisonError<PoisonGuard<MutexRef>>", "PoisonError<PoisonGuard<'static, MRef>>", "PoisonError<PoisonRef<'static, MRef>>"),
+		("PoisonResult<PoisonGuard<MutexRef>>", "PoisonResult<PoisonGuard<'static, MRef>>", "PoisonResult<PoisonRef<'static, MRef>>"),
+		("TryLockPoisonableError<MutexRef>", "TryLockPoisonableError<'static, MRef>", "PoisonError<PoisonRef<'static, MRef>>"),
+		("TryLockPoisonableError<()>", "TryLockPoisonableError<'static, ()>", "PoisonError<()>"),
+		("TryLockPoisonableResult<MutexRef>", "TryLockPoisonableResult<'static, MRef>", "PoisonResult<PoisonRef<'static, MRef>>"),
+		("Result<LockGuard<MutexRef>, ThreadKey>", "Result<LockGuard<MRef>, ThreadKey>", "Result<MRef, ()>"),
+		("Option<ThreadKey>", "Option<ThreadKey>", "Option<MRef>"),
+		("Box<ThreadKey>", "Box<ThreadKey>", "Box<MRef>"),
+		("Mutex<ThreadKey> guard payload", "happylock::mutex::MutexRef<'static, ThreadKey, SendRaw>", "MRef"),
 	] {
 		let mut en = e("C14", "send-guard-over-GuardSend-raw-lock", recv, "", &format!("\tneed_send_t::<{}>();", bad_ty), &format!("\tneed_send_t::<{}>();", good_ty), "", &["E0277"]);
 		en.items = send_raw.to_string();
